@@ -448,3 +448,13 @@ Definition region_spec (b : buf) (k : mkey) (r1 o1 r2 o2 : Z) (g : region) : Pro
      lex_le (g_r1 g) (g_o1 g) (g_r2 g) (g_o2 g)).
 (* a register name that reg_put stores under itself: not upper case (append) and not the double quote *)
 Definition plain_reg (y : N) : Prop := c_isupper y = false /\ y <> 34%N.
+(* valid UTF-8 of a whole state and of the typed text of a program (C08_utf8) *)
+Definition regs_valid (R : regs) : Prop := forall c t ln, R c = Some (t, ln) -> valid t.
+Definition est_valid (e : est) : Prop := buf_valid (s_buf e) /\ regs_valid (s_regs e).
+Definition cmd_valid (c : cmd) : Prop :=
+  match c with
+  | COp _ _ _ _ _ typed => line_valid typed
+  | CReplace _ c => chr_valid c
+  | CIns _ typed => line_valid typed
+  | _ => True
+  end.
